@@ -16,6 +16,9 @@ OBLIGATIONS = [
     "Pkgcore.C23.reowned",
     "Pkgcore.C23.fixes_preserve_identity",
     "Pkgcore.C23.engine_premerge_hardens",
+    "Pkgcore.C23.reset_then_harden",
+    "Pkgcore.C23.reset_after_fixers_counterexample",
+    "Pkgcore.C23.ebuild_engine_premerge_hardens",
     "Pkgcore.C23.spec_checker_sound",
 ]
 TRUSTED = [
@@ -34,7 +37,8 @@ ASSUMPTIONS = [
     "the build user/group are the trigger arguments (defaults os_data.portage_uid/gid; in this sandbox there is no portage user, both default to 0, so the check "
     "also registers instances with a distinct build uid/gid through the public register() API)",
 ]
-RULE = ("contents sets of 0-9 entries of the five fs classes with distinct locations; modes drawn from all 4096 permission-bit combinations (biased towards set-id and "
+RULE = ("[also: engines assembled the way the ebuild format does it — default plugins with real build ids, format triggers incl. preinst_contents_reset, domain triggers — and "
+        "runs in which an unrelated pre_merge trigger of priority 5/20/49/60 raises a suppressed exception] contents sets of 0-9 entries of the five fs classes with distinct locations; modes drawn from all 4096 permission-bit combinations (biased towards set-id and "
         "world-writable ones) optionally with the S_IF* type bits a livefs scan records; uid/gid from {0, build, other}; run through the pre_merge hook of a real "
         "MergeEngine.install / MergeEngine.replace (default plugins + explicitly registered instances, with and without an observer, with and without an offset) or, "
         "for a quarter of the cases, through the trigger objects directly; non-trivial = at least one entry is changed by the stage and at least one is not")
@@ -58,6 +62,68 @@ def _engines(repo_unused=None):
     return engine, contents, Pkg
 
 
+class FakeDomain:
+    """what GenerateTriggers reads from a domain (no binpkg repos, stripping and .la fixing off: they need real ELF/.la files)"""
+    features = frozenset(["nostrip", "-fixlafiles"])
+    installed_repos = ()
+    binary_repos_raw = ()
+
+
+class FakeFormatOp:
+    def __init__(self, d):
+        self.env = {"D": d}
+
+
+def make_ebuild_pkg(cset, preinst):
+    """a package as the ebuild format's trigger registration looks at it"""
+    class Opts:
+        rewrite_image_symlinks = True
+
+    class Eapi:
+        options = Opts()
+
+    class Parent:
+        def scan_contents(self, location):
+            return cset.clone()
+
+    class Pkg:
+        contents = cset
+        repo = object()
+        eapi = Eapi()
+        mandatory_phases = frozenset(["preinst", "postinst"] if preinst else ["postinst"])
+        _parent = Parent()
+
+        def __str__(self):
+            return "verif/c23-ebuild-1"
+
+    return Pkg()
+
+
+def assemble_ebuild_engine(engine, mtriggers, tmp, pkg, offset, obs, ids, image_dir, old_pkg=None):
+    """an install/replace engine with the trigger set the ebuild machinery gives it (operations.domain.base.start):
+    the engine's default plugins, then the format's triggers, then the domain's triggers.  The default-plugin loop of
+    MergeEngine.__init__ is replayed with the build ids of a host that has a portage user (the sandbox has none: the
+    class defaults are 0 -> 0); when `ids` is None the engine runs its own loop."""
+    from pkgcore.ebuild import ebuild_built
+    from pkgcore.ebuild import triggers as etriggers
+    kw = dict(offset=offset, observer=obs, disable_plugins=ids is not None)
+    eng = engine.MergeEngine.install(tmp, pkg, **kw) if old_pkg is None else engine.MergeEngine.replace(tmp, old_pkg, pkg, **kw)
+    if ids is not None:
+        bu, ru, bg, rg = ids
+        for kls in mtriggers.default_plugins_triggers():
+            if kls is mtriggers.fix_uid_perms:
+                t = kls(uid=bu, replacement=ru)
+            elif kls is mtriggers.fix_gid_perms:
+                t = kls(gid=bg, replacement=rg)
+            else:
+                t = kls()
+            t.register(eng)
+    ebuild_built.generic_format_triggers(None, pkg, None, FakeFormatOp(image_dir), eng)
+    for t in etriggers.GenerateTriggers(FakeDomain(), {}):
+        t.register(eng)
+    return eng
+
+
 def hook_order(eng):
     return [t for t in sorted(eng.hooks["pre_merge"], key=lambda t: t.priority)]
 
@@ -71,6 +137,10 @@ def gen_tables(repo):
         e2 = engine.MergeEngine.replace(os.path.join(d, "t2"), Pkg(contents.contentsSet()), Pkg(contents.contentsSet()), offset=os.path.join(d, "r2"))
         o1 = [type(t).__name__ for t in hook_order(e1)]
         o2 = [type(t).__name__ for t in hook_order(e2)]
+        from pkgcore.merge import triggers as mtriggers
+        e3 = assemble_ebuild_engine(engine, mtriggers, os.path.join(d, "t3"), make_ebuild_pkg(contents.contentsSet(), True), os.path.join(d, "r3"), None, None,
+                                    os.path.join(d, "image"))
+        o3 = [type(t).__name__ for t in hook_order(e3)]
     finally:
         shutil.rmtree(d, ignore_errors=True)
     lst = lambda xs: "[" + ", ".join('"%s"' % x for x in xs) + "]"
@@ -83,6 +153,7 @@ def gen_tables(repo):
             "namespace Pkgcore.Generated.C23\n"
             f"def preMergeOrder : List String := {lst(o1)}\n"
             f"def replacePreMergeOrder : List String := {lst(o2)}\n"
+            f"def ebuildPreMergeOrder : List String := {lst(o3)}\n"
             f"def triggerMeta : List (String × List String × List String × List Nat) := [{', '.join(meta)}]\n"
             f"def installingModes : List Nat := {nat(sorted(triggers.INSTALLING_MODES))}\n"
             "end Pkgcore.Generated.C23\n")
@@ -115,12 +186,13 @@ def gen_case(rng, idx):
     for i in range(n):
         kind = rng.choice([0, 0, 0, 1, 1, 2, 3, 4])
         entries.append({"kind": kind, "loc": names[i], "mode": gen_mode(rng, kind), "uid": rng.choice(ids), "gid": rng.choice(ids), "payload": i + 1})
-    how = rng.choice(["install", "install", "install_noplug", "replace", "direct"])
+    how = rng.choice(["install", "install_noplug", "replace", "direct", "ebuild", "ebuild", "ebuild_replace"])
     good_uid = rng.choice([0, 0, 0, 7])
     good_gid = rng.choice([0, 0, 0, 7])
     return {"entries": entries, "how": how, "observer": rng.random() < 0.5, "offset": rng.random() < 0.7,
             "fix_perms": rng.random() < 0.3, "bu": BUILD_UID, "ru": good_uid, "bg": BUILD_GID, "rg": good_gid,
-            "extra_first": rng.random() < 0.5}
+            "extra_first": rng.random() < 0.5, "preinst": rng.random() < 0.6,
+            "fault": rng.choice([None, None, None, 5, 20, 49, 60])}
 
 
 def E(kind, loc, mode, uid, gid, payload):
@@ -128,6 +200,16 @@ def E(kind, loc, mode, uid, gid, payload):
 
 
 CORPUS = [
+    # the engine as the ebuild format assembles it, package with pkg_preinst: what is merged is the re-scanned image
+    {"entries": [E(0, "/bin/su", 0o4757, BUILD_UID, BUILD_GID, 1), E(1, "/etc", 0o6777, BUILD_UID, 0, 2), E(2, "/l", 0o777, BUILD_UID, BUILD_GID, 3), E(0, "/ok", 0o644, 0, 0, 4)],
+     "how": "ebuild", "observer": True, "offset": True, "fix_perms": False, "bu": BUILD_UID, "ru": 0, "bg": BUILD_GID, "rg": 0, "extra_first": False, "preinst": True, "fault": None},
+    {"entries": [E(0, "/bin/su", 0o4757, BUILD_UID, BUILD_GID, 1), E(0, "/ok", 0o644, 0, 0, 4)],
+     "how": "ebuild_replace", "observer": False, "offset": True, "fix_perms": False, "bu": BUILD_UID, "ru": 0, "bg": BUILD_GID, "rg": 0, "extra_first": False, "preinst": True, "fault": None},
+    # an unrelated earlier trigger crashes (suppressed by the engine): the hardening must still happen
+    {"entries": [E(0, "/bin/su", 0o4757, BUILD_UID, BUILD_GID, 1), E(1, "/usr/share", 0o6777, BUILD_UID, BUILD_GID, 2), E(0, "/ok", 0o644, 0, 0, 3)],
+     "how": "install", "observer": True, "offset": True, "fix_perms": False, "bu": BUILD_UID, "ru": 0, "bg": BUILD_GID, "rg": 0, "extra_first": False, "preinst": False, "fault": 20},
+    {"entries": [E(0, "/bin/su", 0o4757, BUILD_UID, BUILD_GID, 1), E(0, "/ok", 0o644, 0, 0, 3)],
+     "how": "ebuild", "observer": False, "offset": True, "fix_perms": False, "bu": BUILD_UID, "ru": 0, "bg": BUILD_GID, "rg": 0, "extra_first": False, "preinst": True, "fault": 5},
     # the defect fixed in the engine: default observer (None) + an entry that makes fix_set_bits warn
     {"entries": [E(0, "/bin/su", 0o4757, 0, 0, 1)], "how": "install", "observer": False, "offset": True, "fix_perms": False,
      "bu": BUILD_UID, "ru": 0, "bg": BUILD_GID, "rg": 0, "extra_first": False},
@@ -189,6 +271,17 @@ def run_impl(case, scratch, mods):
     offset = os.path.join(scratch, "root") if case["offset"] else None
     res = {"exc": None, "identity": [], "warnings": 0}
     how = case["how"]
+    fault = case.get("fault")
+
+    class Flaky(triggers.base):
+        # an unrelated pre_merge trigger that crashes; the engine logs and suppresses ordinary exceptions of triggers
+        required_csets = ("new_cset",)
+        _hooks = ("pre_merge",)
+        _engine_types = None
+
+        def trigger(self, engine, cset):
+            raise LookupError("injected fault (C23 harness)")   # an ordinary exception (RuntimeError is in snakeoil IGNORED_EXCEPTIONS)
+
     try:
         if how == "direct":
             class FakeEngine:
@@ -203,8 +296,14 @@ def run_impl(case, scratch, mods):
             off = None
         else:
             tmp = os.path.join(scratch, "tmp")
-            if how == "replace":
-                old = contents.contentsSet([fs.fsFile("/old/file", mode=0o644, uid=0, gid=0, mtime=1, data=data_source("x"), strict=False)])
+            old = contents.contentsSet([fs.fsFile("/old/file", mode=0o644, uid=0, gid=0, mtime=1, data=data_source("x"), strict=False)])
+            if how in ("ebuild", "ebuild_replace"):
+                # the trigger set of a real ebuild-format merge; the fixers get the build ids directly, no extra instances
+                extra = [t for t in extra if type(t).__name__ == "detect_world_writable"]
+                eng = assemble_ebuild_engine(engine, triggers, tmp, make_ebuild_pkg(cset, case.get("preinst", False)), offset or os.path.join(scratch, "root-e"), obs,
+                                             (case["bu"], case["ru"], case["bg"], case["rg"]), os.path.join(scratch, "image"),
+                                             old_pkg=Pkg(old) if how == "ebuild_replace" else None)
+            elif how == "replace":
                 eng = engine.MergeEngine.replace(tmp, Pkg(old), Pkg(cset), offset=offset, observer=obs)
             elif how == "install_noplug":
                 eng = engine.MergeEngine.install(tmp, Pkg(cset), offset=offset, observer=obs, disable_plugins=True)
@@ -214,6 +313,10 @@ def run_impl(case, scratch, mods):
                 eng = engine.MergeEngine.install(tmp, Pkg(cset), offset=offset, observer=obs)
             for t in extra:
                 t.register(eng)
+            if fault is not None:
+                fl = Flaky()
+                fl.priority = fault
+                fl.register(eng)
             order = hook_order(eng)
             eng.pre_merge()
             new = eng.csets["new_cset"]
@@ -226,7 +329,7 @@ def run_impl(case, scratch, mods):
     if rec is not None:
         res["warnings"] = len(rec.lines)
         for kind_, msg in rec.lines:
-            if "unhandled exception" in msg:
+            if "unhandled exception" in msg and "injected fault (C23 harness)" not in msg:
                 res["exc"] = "trigger exception suppressed by the engine: " + msg.strip().splitlines()[-1]
     mt = []
     for t in order:
@@ -239,6 +342,8 @@ def run_impl(case, scratch, mods):
             mt.append({"t": n})
         elif n == "detect_world_writable":
             mt.append({"t": n, "fix": bool(t.fix_perms)})
+        elif n == "preinst_contents_reset":
+            mt.append({"t": n, "image": case["entries"]})
     res["triggers"] = mt
     # read the result back, in the order of the input entries
     by_loc = {}
@@ -363,6 +468,10 @@ def run(ctx):
                     unchanged += 1
         ctx.case(case, changed > 0 and unchanged > 0, key=repr(sorted(c.items())))
         ctx.count("how_" + c["how"])
+        if c.get("fault") is not None:
+            ctx.count("injected_fault_priority_%d" % c["fault"])
+        if c["how"].startswith("ebuild") and c.get("preinst"):
+            ctx.count("ebuild_with_preinst_contents_reset")
         ctx.count("observer_%s" % c["observer"])
         ctx.count("entries_%d" % min(len(c["entries"]), 9))
         for e in c["entries"]:
@@ -411,6 +520,14 @@ def run(ctx):
 
     # the generated default order, run by the model, against engines that only have default-argument plugins + our two
     # (equivalent because the default fix_uid/gid instances are no-ops when portage ids = root ids)
+    # the generated ebuild-engine order (contents reset first), run by the model, against the engines assembled the ebuild way
+    eb = [k for k in idx if cases[k]["how"] == "ebuild" and cases[k].get("preinst") and not cases[k]["fix_perms"]][:400]
+    reqs = [{"cmd": "c23.ebuild", "entries": cases[k]["entries"], "image": cases[k]["entries"], "bu": cases[k]["bu"], "ru": cases[k]["ru"], "bg": cases[k]["bg"], "rg": cases[k]["rg"]}
+            for k in eb]
+    for k, rep in zip(eb, ctx.model(reqs)):
+        ctx.evaluations += 1
+        if rep != impl[k]["after"]:
+            ctx.mismatch(cases[k], f"model with the generated ebuild-engine trigger order gives {rep}, the engine gives {impl[k]['after']}")
     reqs = [{"cmd": "c23.default", "entries": cases[k]["entries"], "bu": cases[k]["bu"], "ru": cases[k]["ru"], "bg": cases[k]["bg"], "rg": cases[k]["rg"]} for k in dflt[:400]]
     for k, rep in zip(dflt[:400], ctx.model(reqs)):
         ctx.evaluations += 1
